@@ -75,8 +75,30 @@ func firstN(u *gen.Universe, n int) []string {
 var allFns = []string{"Satisfies", "ExtractLicenses", "ValidateLicenses"}
 var short = []string{"MIT", "Apache-2.0", "ISC"}
 
+// fine builds a ladder that starts with small steps (so that exponential growth is caught by the
+// allocation rule long before a rung becomes too expensive to finish) and then grows geometrically
+// (factor ~1.5) up to top.
+func fine(top int) []int {
+	out := []int{2, 4, 6, 8, 10, 12, 14, 16, 18, 20, 22, 24, 28, 32}
+	for n := 40; n < top; n = n*3/2 + 1 {
+		out = append(out, n)
+	}
+	var r []int
+	for _, n := range out {
+		if n < top {
+			r = append(r, n)
+		}
+	}
+	return append(r, top)
+}
+
 func families() []family {
-	geo := func(vals ...int) []int { return vals }
+	geo := func(vals ...int) []int {
+		if len(vals) >= 3 && vals[0] >= 15 { // polynomial families: fine-grained ladder up to the old top rung
+			return fine(vals[len(vals)-1])
+		}
+		return vals
+	}
 	return []family{
 		{name: "and_chain", fns: allFns, quick: geo(30, 120, 500, 1500), thor: geo(30, 120, 500, 2000, 8000),
 			build: func(u *gen.Universe, n int) (string, []string) { return chain(u, n, "AND", nil), short }},
